@@ -19,6 +19,13 @@ NA = {
 }
 
 CHECKS = {
+    "C17": dict(
+        category="exploration",
+        text="Seeded search over IntervalRegressor scenarios with the numpy.random seam owned by the simulator: every resampling request made from inside the (possibly threaded) fit tasks is logged and answered adversarially (both ends of the requested range forced into every resample) or from the pinned global RNG; oracles on what was requested (support = all n rows, size = round(alpha*n)), on what each recording base regressor received (rows with their own target and weight) and on the aggregation (mean, sorted, min<=mean<=max). Eligibility of every row is decided without statistics.",
+        design_ref="DESIGN.md §4 C17, §3.4",
+        note="Trusted: the seam sees randint/choice requests of mlinsights.mlmodel.interval_regressor only (other index sources are judged by records); recording peers stand for arbitrary base regressors; distinct rows/targets/weights.",
+        technique="deterministic simulation: owned entropy seam (adversarial + pinned), seeded thread scheduler, recording peers",
+    ),
     "C02": dict(
         category="fault_enumeration",
         text="Per generated scenario (estimator class x configuration x data x operation history) a dry run lists the fault sites reached by fit and every single site is failed once (exhaustive single-fault enumeration per scenario, pairs in the thorough tier, under drawn thread schedules where the class has n_jobs), and every applicable invalid-data kind is tried; after every operation get_params and the caller's arrays are compared with their state before, fit must return self, and the last successful fit must equal, bit for bit, a fresh estimator fitted under the same seed, entropy and taped schedule. Scenarios are sampled; the enumeration within a scenario is complete.",
@@ -35,7 +42,9 @@ CHECKS = {
     ),
 }
 
-PENDING = {'C01': 'claimed in DESIGN.md §4; its check is under construction in this session and not registered yet', 'C02': 'claimed in DESIGN.md §4; its check is under construction in this session and not registered yet', 'C03': 'claimed in DESIGN.md §4; its check is under construction in this session and not registered yet', 'C04': 'claimed in DESIGN.md §4; its check is under construction in this session and not registered yet', 'C07': 'claimed in DESIGN.md §4; its check is under construction in this session and not registered yet', 'C13': 'claimed in DESIGN.md §4; its check is under construction in this session and not registered yet', 'C15': 'claimed in DESIGN.md §4; its check is under construction in this session and not registered yet', 'C17': 'claimed in DESIGN.md §4; its check is under construction in this session and not registered yet', 'C18': 'claimed in DESIGN.md §4; its check is under construction in this session and not registered yet'}
+PENDING = {'C01': 'claimed in DESIGN.md §4; its check is under construction in this session and not registered yet', 'C03': 'claimed in DESIGN.md §4; its check is under construction in this session and not registered yet', 'C04': 'claimed in DESIGN.md §4; its check is under construction in this session and not registered yet', 'C07': 'claimed in DESIGN.md §4; its check is under construction in this session and not registered yet', 'C13': 'claimed in DESIGN.md §4; its check is under construction in this session and not registered yet', 'C15': 'claimed in DESIGN.md §4; its check is under construction in this session and not registered yet', 'C17': 'claimed in DESIGN.md §4; its check is under construction in this session and not registered yet', 'C18': 'claimed in DESIGN.md §4; its check is under construction in this session and not registered yet'}
+# a property moves from PENDING to CHECKS when its check is registered
+PENDING = {k: v for k, v in PENDING.items() if k not in CHECKS}
 
 
 def main():
